@@ -37,6 +37,14 @@ Section Rodrigues.
        (vz k) 0 (- vx k)
        (- vy k) (vx k) 0.
 
+  (* entry (a, b) of a 3x3 matrix, a, b in 0..2 *)
+  Definition m3get (m : mat3 F) (a b : nat) : F :=
+    match a, b with
+    | 0%nat, 0%nat => a00 m | 0%nat, 1%nat => a01 m | 0%nat, _ => a02 m
+    | 1%nat, 0%nat => a10 m | 1%nat, 1%nat => a11 m | 1%nat, _ => a12 m
+    | _, 0%nat => a20 m | _, 1%nat => a21 m | _, _ => a22 m
+    end.
+
   (* ---------- forward map ---------- *)
   (* eps = np.finfo(np.double).eps = 2^-52 *)
   Definition rod_eps : F := nfrac O 1 4503599627370496.
@@ -246,5 +254,6 @@ Section Rodrigues.
     else if shape_eqb (nd_shape a) [3%nat; 3%nat] then m2r_entry proj a jac
     else Raise ValueError.
 End Rodrigues.
+Arguments m3get {F}.
 Arguments MkNd {F}. Arguments nd_shape {F}. Arguments nd_data {F}.
 Arguments OutMat {F}. Arguments OutVec {F}.
